@@ -59,6 +59,7 @@ type layoutCase struct {
 	CodeTag string   `json:"code_tag"` // literal after value: in the MsgType tag
 	SOM     string   `json:"som,omitempty"`
 	CodeEmb bool     `json:"code_embedded,omitempty"` // the MsgType field lives inside the embedded struct
+	Shadow  bool     `json:"shadow,omitempty"`        // embedded fields carry the same Go names as outer fields (legal: the outer ones shadow them)
 	Fields  []lField `json:"fields"`
 }
 
@@ -71,6 +72,34 @@ func parseLiteral(s string) (uint64, bool) {
 		_, err = fmt.Sscanf(s, "%d", &v)
 	}
 	return v, err == nil
+}
+
+// fieldName: outer fields are F0, F1 ... in their own numbering; embedded fields are E<i>, or - with Shadow - F0, F1 ...
+// in THEIR own numbering, so that they collide with outer names.
+func (c layoutCase) fieldName(i int) string {
+	n := 0
+	for j := 0; j < i; j++ {
+		if c.Fields[j].Embedded == c.Fields[i].Embedded {
+			n++
+		}
+	}
+	if c.Fields[i].Embedded && !c.Shadow {
+		return fmt.Sprintf("E%d", n)
+	}
+	return fmt.Sprintf("F%d", n)
+}
+
+// locate returns the reflect value of field i inside v (a value of the built type).
+func (c layoutCase) locate(v reflect.Value, i int) reflect.Value {
+	if c.Fields[i].Embedded {
+		return v.FieldByName("Inner").FieldByName(c.fieldName(i))
+	}
+	for k := 0; k < v.NumField(); k++ {
+		if !v.Type().Field(k).Anonymous && v.Type().Field(k).Name == c.fieldName(i) {
+			return v.Field(k)
+		}
+	}
+	panic("HARNESS: field not found")
 }
 
 func (c layoutCase) build() (reflect.Type, bool) {
@@ -97,7 +126,7 @@ func (c layoutCase) build() (reflect.Type, bool) {
 		if f.Kind == "u8fixed" {
 			tag = fmt.Sprintf(`uhppote:"offset:%d, value:%s"`, f.Off, f.Tag)
 		}
-		sf := reflect.StructField{Name: fmt.Sprintf("F%d", i), Type: k.typ, Tag: reflect.StructTag(tag)}
+		sf := reflect.StructField{Name: c.fieldName(i), Type: k.typ, Tag: reflect.StructTag(tag)}
 		if f.Embedded {
 			if embAt < 0 {
 				embAt = len(top)
@@ -164,19 +193,9 @@ func decide(c layoutCase) *rp.Fail {
 	if len(ls) != len(c.Fields) {
 		return rp.Failf("harness/leaves", "%d leaves for %d fields", len(ls), len(c.Fields))
 	}
-	// leaves come in struct order: top-level fields first up to the embedded struct ... map by field name instead
-	byName := map[string]reflect.Value{}
-	var walk func(v reflect.Value)
-	walk = func(v reflect.Value) {
-		for i := 0; i < v.NumField(); i++ {
-			if v.Type().Field(i).Anonymous {
-				walk(v.Field(i))
-			} else {
-				byName[v.Type().Field(i).Name] = v.Field(i)
-			}
-		}
+	if c.Shadow {
+		ev.Class("layout/embedded-field-names-shadowed-by-outer-fields", 1)
 	}
-	walk(v)
 	want := make([]byte, 64)
 	want[0] = 0x17
 	if c.SOM != "" {
@@ -186,7 +205,7 @@ func decide(c layoutCase) *rp.Fail {
 	want[1] = c.Code
 	for i, f := range c.Fields {
 		k := kindByName(f.Kind)
-		fld := byName[fmt.Sprintf("F%d", i)]
+		fld := c.locate(v, i)
 		val := f.Val
 		if f.Kind == "u8fixed" {
 			x, _ := parseLiteral(f.Tag)
@@ -240,9 +259,7 @@ func decide(c layoutCase) *rp.Fail {
 	if err != nil {
 		return rp.Failf(site+"/rejects-own-encoding", "Unmarshal into layout %s failed: %v (message %x)", describe(c), err, enc)
 	}
-	got := map[string]reflect.Value{}
-	byName = got
-	walk(out.Elem())
+	gotV := out.Elem()
 	check := func(stage string) *rp.Fail {
 		for i, f := range c.Fields {
 			k := kindByName(f.Kind)
@@ -251,7 +268,7 @@ func decide(c layoutCase) *rp.Fail {
 				x, _ := parseLiteral(f.Tag)
 				val = fv.FV{U: x}
 			}
-			if g, w := fv.Canon(got[fmt.Sprintf("F%d", i)]), fv.Want(k.typ, val); g != w {
+			if g, w := fv.Canon(c.locate(gotV, i)), fv.Want(k.typ, val); g != w {
 				cls := "wrong-value"
 				if stage != "" {
 					cls = "aliases-input-buffer"
@@ -277,11 +294,9 @@ func decide(c layoutCase) *rp.Fail {
 	if p := try(func() { as, err = codec.UnmarshalAs(append([]byte(nil), enc...), reflect.New(typ).Elem().Interface()) }); p != nil || err != nil {
 		return rp.Failf("codec.UnmarshalAs/error", "layout %s: UnmarshalAs failed: %v %v", describe(c), p, err)
 	}
-	got = map[string]reflect.Value{}
-	byName = got
 	asv := reflect.New(typ).Elem()
 	asv.Set(reflect.ValueOf(as))
-	walk(asv)
+	gotV = asv
 	site = "codec.UnmarshalAs"
 	if f := check(""); f != nil {
 		return f
@@ -447,6 +462,7 @@ func genLayout(t *rapid.T) layoutCase {
 		c.Fields = []lField{{Kind: "u32", Off: 4, Val: fv.FV{U: 405419896}}}
 	}
 	c.CodeEmb = embed && rapid.Bool().Draw(t, "code.embedded")
+	c.Shadow = embed && rapid.IntRange(0, 2).Draw(t, "shadow") == 0
 	return c
 }
 
@@ -458,9 +474,9 @@ func sweepSingle(yield func(layoutCase) bool) {
 		case "u8fixed":
 			return []lField{{Tag: "32"}, {Tag: "0x20"}, {Tag: "0XFE"}, {Tag: "255"}, {Tag: "0"}, {Tag: "0x0a"}, {Tag: "9"}, {Tag: "10"}}
 		case "date", "*date":
-			return []lField{{Val: fv.FV{Y: 2024, M: 12, D: 31}}, {Val: fv.FV{Zero: true}}, {Val: fv.FV{Nil: k.name[0] == '*', Zero: true}}, {Val: fv.FV{Y: 1999, M: 10, D: 9}}}
+			return []lField{{Val: fv.FV{Y: 2024, M: 12, D: 31}}, {Val: fv.FV{Zero: true}}, {Val: fv.FV{Nil: k.name[0] == '*', Zero: true}}, {Val: fv.FV{Y: 1999, M: 10, D: 9}}, {Val: fv.FV{Y: 2000, M: 2, D: 29}}, {Val: fv.FV{Y: 2400, M: 2, D: 29}}, {Val: fv.FV{Y: 1, M: 1, D: 2}}, {Val: fv.FV{Y: 9999, M: 12, D: 31}}}
 		case "datetime", "*datetime":
-			return []lField{{Val: fv.FV{Y: 2024, M: 12, D: 31, H: 23, Mi: 59, S: 58}}, {Val: fv.FV{Zero: true}}, {Val: fv.FV{Nil: k.name[0] == '*', Zero: true}}}
+			return []lField{{Val: fv.FV{Y: 2024, M: 12, D: 31, H: 23, Mi: 59, S: 58}}, {Val: fv.FV{Zero: true}}, {Val: fv.FV{Nil: k.name[0] == '*', Zero: true}}, {Val: fv.FV{Y: 2000, M: 2, D: 29, H: 0, Mi: 0, S: 1}}, {Val: fv.FV{Y: 2000, M: 1, D: 1}}}
 		case "sysdate":
 			return []lField{{Val: fv.FV{Y: 2024, M: 12, D: 31}}, {Val: fv.FV{Y: 2000, M: 1, D: 1}}}
 		case "systime":
